@@ -242,6 +242,38 @@ Corollary imported_initial_none (p : spt) : wf p -> s_init X D S p = None ->
   exists q, import_simple X D S (export X D S p) = Ok q /\ s_init X D S q = None.
 Proof. intros H Hn. exists p. split; [apply roundtrip_simple; exact H|exact Hn]. Qed.
 
+(* ---- close() / remove() in any order -------------------------------------------------- *)
+Lemma fo_step_keeps (o : fobj) op :
+  o_mode (fst (fo_step false o op)) = o_mode o /\ o_given (fst (fo_step false o op)) = o_given o.
+Proof. destruct op; cbn; [split; reflexivity|]. destruct (negb (removeable (o_mode o) (o_given o))); split; reflexivity. Qed.
+
+(* an object that is not entitled to delete its file never deletes it, whatever sequence of close() and remove() it is given
+   (and every remove() is refused) *)
+Theorem not_entitled_never_deletes ops : forall o : fobj,
+  removeable (o_mode o) (o_given o) = false ->
+  o_there (fo_final false o ops) = o_there o /\
+  Forall (fun r => snd r = o_there o) (fo_run false o ops).
+Proof.
+  induction ops as [|op t IH]; intros o H; [split; [reflexivity|constructor]|].
+  cbn [fo_final fo_run].
+  destruct op; cbn [fo_step].
+  - cbn [fst]. destruct (IH {| o_mode := o_mode o; o_given := o_given o; o_open := false; o_there := o_there o |} H) as [I1 I2].
+    split; [exact I1|]. constructor; [reflexivity|exact I2].
+  - rewrite H. cbn [negb andb fst].
+    destruct (IH {| o_mode := o_mode o; o_given := o_given o; o_open := false; o_there := o_there o |} H) as [I1 I2].
+    split; [exact I1|]. constructor; [reflexivity|exact I2].
+Qed.
+
+(* an entitled object deletes it at its first remove(), open or closed *)
+Theorem entitled_removes (o : fobj) pre :
+  removeable (o_mode o) (o_given o) = true -> Forall (fun op => op = FClose) pre ->
+  o_there (fo_final false o (pre ++ [FRemove])) = false.
+Proof.
+  revert o. induction pre as [|op t IH]; intros o H Hp.
+  - cbn. rewrite H. reflexivity.
+  - inversion Hp as [|? ? Hop Ht]; subst. cbn [app fo_final fo_step fst]. apply IH; [exact H|exact Ht].
+Qed.
+
 (* ---- decision tables -------------------------------------------------------- *)
 (* ---- name / description set while the file is being written --------------------------- *)
 Definition is_rename (o : wop X S) : bool := match o with WName _ _ _ | WDesc _ _ _ => true | _ => false end.
